@@ -357,6 +357,12 @@ class VSeqObj(V):
         self.z, self.cls, self.rev = z, cls, rev
 
 
+class VIter(V):
+    """a one-shot iterator over concrete items: heap[cell] holds the items not yet consumed"""
+    def __init__(self, cell):
+        self.cell = cell
+
+
 class VRange(V):
     def __init__(self, lo, hi):
         self.lo, self.hi = lo, hi
@@ -1620,6 +1626,14 @@ class Exec:
             if f.name == 'weakref.ref' and len(f.args) == 1 and not args:
                 return [(st, f.args[0])]          # the referent (assumed alive: it is reachable from the scenario's roots)
             return [(st, VExt(f.name + '()', list(f.args) + list(args), kws))]
+        if isinstance(f, VObj):
+            # an instance with __call__
+            res = []
+            for s2, m in self.getattr(f, '__call__', st, ctx, n):
+                if isinstance(m, Raise):
+                    raise ToolLimit('call of an object without __call__')
+                res += self.call(m, args, kws, s2, ctx, n, env)
+            return res
         raise ToolLimit('call of %s' % type(f).__name__)
 
     def call_class(self, f, args, kws, st, ctx, n):
@@ -2026,6 +2040,8 @@ class Exec:
                 x = A[0]
                 if isinstance(x, VSeqObj):
                     return [(st, VSeqObj(x.z, x.cls, not x.rev))]
+                if isinstance(x, VDict):
+                    return [(st, self.new_iter(st, list(reversed([k for k, _ in x.of(st)]))))]
                 return [(st, VTuple(list(reversed(self.items(x, st)))))]
             if name == 'len' and isinstance(A[0], VSeqObj):
                 return [(st, VInt(z3.Length(A[0].z)))]
@@ -2037,8 +2053,73 @@ class Exec:
                             res.append((s2, v if isinstance(v, VList) else self.new_list(s2, self.items(v, s2))))
                     return res
                 return [(st, self.new_list(st, self.items(A[0], st)))]
+            if name == 'iter' and len(A) == 2:
+                # iter(callable, sentinel): call until the sentinel comes back. Evaluated at once (the callables used only consume
+                # their own input buffer), bounded by the path budget
+                outs, res = [(st, [])], []
+                for _round in range(64):
+                    nxt = []
+                    for s1, acc in outs:
+                        for s2, v in self.call(A[0], [], {}, s1, ctx, n, env):
+                            if isinstance(v, Raise):
+                                res.append((s2, v))
+                                continue
+                            e = z3.simplify(self.eq(v, A[1], s2))
+                            if z3.is_true(e):
+                                res.append((s2, self.new_iter(s2, acc)))
+                            elif z3.is_false(e):
+                                nxt.append((s2, acc + [v]))
+                            else:
+                                raise ToolLimit('iter(callable, sentinel) with an undecided sentinel test')
+                    outs = nxt
+                    if not outs:
+                        return res
+                raise ToolLimit('iter(callable, sentinel) did not reach its sentinel within 64 calls')
             if name == 'iter':
                 return [(st, A[0])]
+            if name == 'next' and isinstance(A[0], VIter):
+                rest = list(st.heap[A[0].cell])
+                if rest:
+                    st.heap[A[0].cell] = tuple(rest[1:])
+                    return [(st, rest[0])]
+                return [(st, A[1] if len(A) > 1 else Raise('StopIteration', getattr(n, 'lineno', None)))]
+            if name == 'functools.partial':
+                return [(st, VBuiltin('partial', bound=(A[0], tuple(A[1:]), dict(kws))))]
+            if name == 'operator.ior':
+                # a |= b : __ior__ if the class has one, else __or__
+                return self.binop(ast.BitOr(), A[0], A[1], st, n)
+            if name == 'id' and len(A) == 1 and isinstance(A[0], VObj) and not z3.is_expr(A[0].ref):
+                # identity of an object: an injective function of its reference
+                self._ids = getattr(self, '_ids', {})
+                return [(st, VInt(self._ids.setdefault(A[0].ref, 0x10000 + 16 * len(self._ids))))]
+            if name == 'itertools.groupby':
+                items = self.iter_items(A[0], st)
+                keyf = kws.get('key') or (A[1] if len(A) > 1 else None)
+                outs = [(st, [])]
+                for it in items:
+                    nxt = []
+                    for s1, acc in outs:
+                        for s2, kv in (self.call(keyf, [it], {}, s1, ctx, n, env) if keyf is not None else [(s1, it)]):
+                            if isinstance(kv, Raise):
+                                return [(s2, kv)]
+                            nxt.append((s2, acc + [(kv, it)]))
+                    outs = nxt
+                res = []
+                for s1, keyed in outs:
+                    groups = []
+                    for kv, it in keyed:
+                        same = False
+                        if groups:
+                            e = z3.simplify(self.eq(groups[-1][0], kv, s1))
+                            if not (z3.is_true(e) or z3.is_false(e)):
+                                raise ToolLimit('groupby with keys whose equality is undecided')
+                            same = z3.is_true(e)
+                        if same:
+                            groups[-1][1].append(it)
+                        else:
+                            groups.append((kv, [it]))
+                    res.append((s1, self.new_iter(s1, [VTuple([k, self.new_iter(s1, g)]) for k, g in groups])))
+                return res
             if name == 'next':
                 its = self.iter_items(A[0], st)
                 if its:
@@ -2198,6 +2279,9 @@ class Exec:
             if hk is not None:
                 return hk(self, st, None, A, kws) if getattr(hk, 'wants_kws', False) else hk(self, st, None, A)
             raise ToolLimit('builtin %s' % name)
+        if name == 'partial' and isinstance(b, tuple) and len(b) == 3:
+            f0, a0, k0 = b
+            return self.call(f0, list(a0) + list(A), dict(k0, **kws), st, ctx, n, env)
         # bound methods
         if isinstance(b, VObj) and name == 'objdict.update' and len(A) == 1 and isinstance(A[0], VBuiltin) and A[0].name == 'objdict':
             src = A[0].bound
@@ -2371,6 +2455,22 @@ class Exec:
             if okfmt:
                 z = z3.Empty(BYTES) if not parts else parts[0] if len(parts) == 1 else z3.Concat(*parts)
                 return [(st, VStr(z=z))]
+        if isinstance(b, VStr) and name == 'format' and isinstance(b.s, str) and A and not kws:
+            # positional fields with concrete arguments: Python's own formatting of those values
+            vals = []
+            for a in A:
+                if isinstance(a, VStr) and isinstance(a.s, str) and a.s != '<fmt>':
+                    vals.append(a.s)
+                elif isinstance(a, (VInt, VBool)) and VInt(self.as_int(a)).conc() is not None:
+                    vals.append(VInt(self.as_int(a)).conc())
+                else:
+                    vals = None
+                    break
+            if vals is not None:
+                try:
+                    return [(st, VStr(s=b.s.format(*vals)))]
+                except Exception:
+                    pass
         if isinstance(b, VStr) and name == 'format':
             return [(st, VStr(s='<fmt>'))]
         if isinstance(b, VStr) and name == 'join' and b.s is not None and False:
@@ -2608,7 +2708,16 @@ class Exec:
             return res
         return [(s1, acc if isinstance(acc, Raise) else self.new_list(s1, acc)) for s1, acc in go(0, env, st)]
 
+    def new_iter(self, st, items):
+        c = 'iter!%d' % next(_fresh)
+        st.heap[c] = tuple(items)
+        return VIter(c)
+
     def iter_items(self, it, st):
+        if isinstance(it, VIter):
+            rest = list(st.heap[it.cell])
+            st.heap[it.cell] = ()
+            return rest
         if isinstance(it, VSet) and it.conds is not None:
             raise ToolLimit('iteration over a set with symbolic membership')
         if isinstance(it, (VList, VTuple, VSet)):
@@ -2778,6 +2887,25 @@ class Exec:
                              returns=None, type_comment=None)
         fd = ast.fix_missing_locations(ast.copy_location(fd, n))
         return [(st, VFunc(fd, env, cls=ctx.get('cls'), mod=ctx['mod']))]
+
+    def st_ClassDef(self, n, env, st, ctx):
+        """a class defined inside a function (a small helper object with methods): registered under a run-local qualified name"""
+        if n.decorator_list or n.keywords:
+            raise ToolLimit('local class with decorators or keywords')
+        qual = '%s.<local %d>.%s' % (ctx['mod'], n.lineno, n.name)
+        if qual not in self.repo.classes:
+            saved = self.repo.classes.get(ctx['mod'] + '.' + n.name)
+            self.repo._scan_class(ctx['mod'], n)
+            ci = self.repo.classes.pop(ctx['mod'] + '.' + n.name)
+            if saved is not None:
+                self.repo.classes[ctx['mod'] + '.' + n.name] = saved
+            ci.qual = qual
+            ci.bases = [b for b in (self.repo._resolve_base(ctx['mod'], b) for b in n.bases) if b != 'object']
+            self.repo.classes[qual] = ci
+            if hasattr(self.repo, '_mro_cache'):
+                self.repo._mro_cache.pop(qual, None)
+        st.envs[env.eid][n.name] = VClass(qual)
+        return [(st, Next())]
 
     def st_FunctionDef(self, n, env, st, ctx):
         st.envs[env.eid][n.name] = VFunc(n, env, cls=ctx.get('cls'), mod=ctx['mod'])
